@@ -21,6 +21,7 @@ type cellKey struct {
 	field *types.Var // struct field cell
 	deref bool       // the pointee of a pointer-typed field
 	local *ssa.Alloc // local / captured variable cell
+	param *ssa.Parameter // the pointee of a *[]T parameter: stands for the cells the callers pass
 }
 
 var theWorld *World
@@ -28,6 +29,9 @@ var theWorld *World
 func (k cellKey) String() string {
 	if k.local != nil {
 		return "variable " + k.local.Comment
+	}
+	if k.param != nil {
+		return "*" + k.param.Name() + " of " + FuncName(k.param.Parent())
 	}
 	s := "field " + k.field.Name()
 	if theWorld != nil {
@@ -112,6 +116,9 @@ func (so *sliceOwn) cellOfAddr(addr ssa.Value) (cellKey, bool) {
 	}
 	if a := rootAlloc(addr); a != nil {
 		return cellKey{local: a}, true
+	}
+	if p, ok := seeThrough(addr).(*ssa.Parameter); ok {
+		return cellKey{param: p}, true
 	}
 	return cellKey{}, false
 }
@@ -302,6 +309,14 @@ func (so *sliceOwn) cellOwned(k cellKey) (bool, string) {
 			return false, so.cellWhy[k]
 		}
 	}
+	// a pointer parameter stands for the cells its callers pass: each must be a cell, and owned
+	if k.param != nil {
+		if why := so.paramCellCallers(k.param); why != "" {
+			so.cellMemo[k] = 3
+			so.cellWhy[k] = why
+			return false, why
+		}
+	}
 	// whole-struct copies alias every slice field of the struct
 	if k.field != nil {
 		if why := so.structCopyAliases(k.field); why != "" {
@@ -458,4 +473,49 @@ func (so *sliceOwn) flowsBack(v ssa.Value, k cellKey, addr ssa.Value, seen map[s
 		}
 	}
 	return false
+}
+
+// paramCellCallers checks the callers of a function that extends a slice through a pointer parameter: the function
+// must only be called statically, and every argument must be the address of a cell that is itself owned.
+func (so *sliceOwn) paramCellCallers(p *ssa.Parameter) string {
+	fn := p.Parent()
+	idx := paramIndex(fn, p)
+	why := ""
+	ncalls := 0
+	for _, caller := range so.w.ModuleFuncs() {
+		eachInstr(caller, func(in ssa.Instruction) {
+			if why != "" {
+				return
+			}
+			if c, ok := in.(ssa.CallInstruction); ok && c.Common().StaticCallee() == fn {
+				ncalls++
+				args := c.Common().Args
+				if idx < 0 || idx >= len(args) {
+					why = "call of " + FuncName(fn) + " at " + so.w.Pos(in.Pos()) + " not understood"
+					return
+				}
+				k, ok := so.cellOfAddr(args[idx])
+				if !ok {
+					why = "call of " + FuncName(fn) + " at " + so.w.Pos(in.Pos()) + " passes " + valStr(args[idx]) + ", which is not the address of a slice cell"
+					return
+				}
+				if ok2, w2 := so.cellOwned(k); !ok2 {
+					why = w2
+				}
+				return
+			}
+			// the function used as a value: unknown callers
+			for _, op := range in.Operands(nil) {
+				if op != nil && *op == ssa.Value(fn) {
+					if c, isCall := in.(ssa.CallInstruction); !isCall || c.Common().Value != ssa.Value(fn) {
+						why = FuncName(fn) + " is used as a value at " + so.w.Pos(in.Pos()) + ": its callers are not known"
+					}
+				}
+			}
+		})
+	}
+	if why == "" && ncalls == 0 {
+		why = FuncName(fn) + " has no static caller"
+	}
+	return why
 }
